@@ -2,6 +2,23 @@
 //!
 //! Oracle: `refmodel::ref_stun` (independent encoder/decoder/verifier, checked against the
 //! RFC 5769 vectors in its unit tests). Sub-checks follow DESIGN.md C20 (i)–(vi).
+//!
+//! Generated / asserted, per sub-check:
+//!  * builder (i): typed Binding message x builder mode. RFC mode: bytes equal the reference encoding;
+//!    both modes: ezk parses its own output back to the generated values, protection attributes
+//!    verify (ezk and reference), wrong key refused. Non-RFC mode: values compared up to the padding
+//!    that mode makes indistinguishable.
+//!  * ref_decode (ii, v): reference-encoded message decodes with ezk to the generated values; it is
+//!    classified STUN by is_stun_message and parse_complete.
+//!  * bitflip (iii): every single-bit flip inside the covered range of a protected message is refused.
+//!  * no_panic (iv): byte strings, lying TLVs, mutated messages, TURN methods: no panic (nothing else).
+//!  * demux_sip (v): SIP text (incl. methods whose first byte looks like a STUN type) is never STUN.
+//!  * client_schedule / client_concurrent / client_cleanup (vi): see `c20/client.rs` — loss patterns x
+//!    shape of the exchange (response class success / error, message content, transaction id,
+//!    request content), several pending requests, errors and cancellation.
+//! Not asserted: whether the SIP parser accepts the generated SIP text; MESSAGE-INTEGRITY behind
+//! MESSAGE-INTEGRITY-SHA256; methods other than Binding beyond no-panic; whether a request or
+//! indication that carries a pending transaction id completes the call; 39.5 s vs 63.5 s give-up.
 
 mod client;
 mod ezk;
@@ -810,7 +827,10 @@ pub fn property() -> Property {
                attribute, or a value whose encoding ends in a zero byte, or an integrity/fingerprint attribute, or a value \
                length not 0 mod 4; distinct = hash of (message, mode). bitflip: non-trivial iff at least one protected range \
                was exhaustively flipped. no_panic: non-trivial iff the bytes parse and carry >=1 attribute. demux_sip: \
-               non-trivial iff the first byte is < 0x40. client_*: every enumerated schedule is non-trivial, distinct = the case.",
+               non-trivial iff the first byte is < 0x40. client_*: a case is a schedule (which transmissions are answered, by which id, \
+               when / where send_to fails / when the future is dropped) plus the shape of the exchange (class and content of the \
+               delivered messages, transaction id, content of the request; for client_concurrent 2-3 calls with their ids, start \
+               instants, answers and response classes); every enumerated case that ezk's parser lets through is non-trivial, distinct = the case.",
         assumptions: vec![
             "reference model ref_stun is correct (checked against the RFC 5769 vectors by its unit tests; each run re-checks that it decodes and verifies its own output)",
             "text attributes never contain U+0000 and UNKNOWN-ATTRIBUTES never lists type 0x0000 (so a decoder may strip padding a sender counted into the length)",
@@ -818,13 +838,20 @@ pub fn property() -> Property {
             "MESSAGE-INTEGRITY after MESSAGE-INTEGRITY-SHA256 (the order ezk's auth.rs emits) may be ignored by the receiver (RFC 8489 14.6); only its bytes and wrong-key refusal are asserted",
             "the header length field is not in the range covered by MESSAGE-INTEGRITY(-SHA256) (the verifier replaces it, 14.5); it is covered by FINGERPRINT",
             "client: end of a request that is never answered is accepted at 39.5 s (RFC Rm=16) or 63.5 s (pure doubling); no transmission after 31.5 s either way",
+            "client: success AND error responses are 'its response' (RFC 8489 6.3.3 / 6.3.4); a request or indication that carries the id of a pending request may either complete the call or be handed to the user (statement silent), both readings accepted as a whole",
+            "client: responses come from the address the request was sent to; two calls with the same id are never pending at the same time; timing ties between different calls are not generated",
             "little-endian host (ezk's set_len byte shuffling is only exercised on the host it runs on)",
         ],
         explanation: "Sampled: typed messages (builder, ref_decode), byte strings and mutated messages (no_panic), SIP text (demux_sip). \
                       Exhaustive per sampled protected message: every single-bit flip inside the covered range (bitflip). \
-                      Exhaustive: all 2^7 answered/lost patterns x {right id, wrong id, wrong-then-right} x 4 response delays (client_schedule); \
+                      Exhaustive: all 2^7 answered/lost patterns x {right id, wrong id, wrong-then-right} x 4 response delays, each one with \
+                      success and error responses (header only and with a pooled attribute body) and with a request / an indication carrying \
+                      the pending id, transaction ids and request contents rotating; thorough: x 4 classes x every pooled body (client_schedule); \
+                      2-3 requests pending at once with near-identical ids, every combination of a small set of answers and of success/error \
+                      responses, and the same id reused after the call ended (client_concurrent); \
                       send_to failing at each of the 7 transmissions and the future dropped on a grid of virtual instants around every \
-                      timer edge, with and without an await inside send_to (client_cleanup). Methods other than Binding: no-panic only.",
+                      timer edge, with and without an await inside send_to, followed by a late message of each class (client_cleanup). \
+                      Methods other than Binding: no-panic only.",
         subs: vec![
             prop_sub("builder", gen::msg_case, 2000, 60000, check_builder),
             prop_sub("ref_decode", gen::msg_case, 2000, 60000, check_ref_decode),
@@ -832,6 +859,7 @@ pub fn property() -> Property {
             prop_sub("no_panic", gen::fuzz_case, 2000, 60000, check_no_panic),
             prop_sub("demux_sip", gen::sip_case, 1000, 20000, check_demux_sip),
             enum_sub("client_schedule", client::schedule_cases, client::check_schedule),
+            enum_sub("client_concurrent", client::concurrent_cases, client::check_concurrent),
             enum_sub("client_cleanup", client::cleanup_cases, client::check_cleanup),
         ],
     }
